@@ -25,6 +25,9 @@ def one_case(rng, cfg, report, stats):
     start = u.history(rng.choice([0, 1, 2, 4, 6]), w)
     pid = rng.choice(u.pids + ["new"])
     tok = u.tok()
+    if rng.random() < 0.3:
+        # the content is already in the store and somebody refers to it
+        start = start + [store_object(rng.choice(u.pids), ("ok", tok, "str", 0))]
     r = rng.random()
     n = len(contents.by_tok[tok])
     if r < 0.2:
@@ -49,6 +52,7 @@ def one_case(rng, cfg, report, stats):
     t2 = seq.Trio(contents, **cfg)
     problems = {}
     disagreements = []
+    before = {}
     try:
         for c in start:
             for t in (t1, t2):
@@ -57,8 +61,8 @@ def one_case(rng, cfg, report, stats):
                 d = seq.chan_diff(m, rr, {"class", "concrete"})
                 if d:
                     disagreements.append((c, d))
+                before[t is t2] = rr
         data = ("ok", tok, "str", 0)
-        before_ref = None
         # procedure 1
         st1 = t1.run(store_object(pid, data, None, cs, ca, size))
         m, s, r1 = seq.observe(st1)
@@ -122,9 +126,17 @@ def one_case(rng, cfg, report, stats):
             if two_class != want:
                 problems["three-call class"] = (want, two_class)
             # neither binds the pid; referenced objects undisturbed
-            for name, rr, st in (("one-call", r1, st1), ("three-call", last2, None)):
-                if rr["abs.refobjs"] != (s["abs.refobjs"] if False else rr["abs.refobjs"]):
-                    pass
+            for name, rr, which in (("one-call", r1, False), ("three-call", last2, True)):
+                pre = before.get(which)
+                if pre is None:
+                    continue
+                refd = {l.split(" ")[2] for l in pre["abs.bind"]}
+                gone = [l for l in pre["abs.objs"] if l.split(" ")[1] in refd and l not in rr["abs.objs"]]
+                if gone:
+                    problems["%s way disturbed a referenced object" % name] = ("kept", gone[:3])
+                lost = [l for l in pre["abs.bind"] if l not in rr["abs.bind"]]
+                if lost:
+                    problems["%s way lost a binding" % name] = ("kept", lost[:3])
             b1 = [l for l in r1["abs.bind"]]
             b2 = [l for l in last2["abs.bind"]]
             if b1 != b2:
@@ -142,7 +154,7 @@ def one_case(rng, cfg, report, stats):
 
 def run(tier, seed, report):
     rng = random.Random("C19/%s/%d" % (tier, seed))
-    n = 40 if tier == "quick" else 500
+    n = 120 if tier == "quick" else 600
     stats = {"cases": 0, "kinds": {}, "distinct": set()}
     samples = []
     algs = ["SHA-256", "MD5", "SHA-1", "SHA-384", "SHA-512"]
